@@ -252,6 +252,43 @@ def check_c10(prop, tier):
             for cat, msg in probs:
                 res.violation(cat, msg + ' (threads %d, backup %s)' % (threads, cfg['backup']),
                               {'tree0': sc['tree0'], 'series': sc['series'], 'cfg': cfg, 'threads': threads, 'reference': o})
+        # inputs of other kinds: inconsistent quilt state, goals, missing / unparseable patch files at any position (the C17
+        # universe of MC_Cmd), also after a patch that does not apply; file names that leave the tree (the C19 universe of
+        # MC_Names).  Whatever the real run does with them, the dry run writes nothing and announces the same exit status and failing patch.
+        import p_cmd, p_names
+        cases = p_cmd.enum(res, 'states', work)
+        sjobs = []
+        for ci, c in enumerate(cases):
+            bpos = c['st']['broken']['pos']
+            sjobs.append((c, 1 + ci % 3, True, 0))
+            if bpos >= 2:
+                sjobs.append((c, 1 + (ci + 1) % 3, True, bpos - 1))
+                if tier == 'thorough':
+                    sjobs.append((c, 1 + (ci + 2) % 3, True, bpos - 1))
+            elif bpos == 0 and c['st']['n'] >= 2 and ci % 3 == 0:
+                sjobs.append((c, 1 + (ci + 1) % 3, True, 1 + ci % c['st']['n']))
+        if tier == 'quick':
+            sjobs = rnd.sample(sjobs, min(len(sjobs), 2500))
+        with Pool(12) as pool:
+            souts = pool.map(p_cmd.state_job, sjobs, chunksize=16)
+        for (c, t, _, fpos), probs in zip(sjobs, souts):
+            for cat, msg in probs:
+                res.violation(cat, msg + ' (threads %d)' % t, {'state': c['st'], 'failing_patch_position': fpos, 'threads': t})
+        out = os.path.join(work, 'names.tlc')
+        stn = tlc('MC_Names', constants={'EmitCases': 'TRUE'}, cfg_body=p_names.CFG, out=out, tag='names-dry', workers=4)
+        res.add_tlc(stn, 'MC_Names')
+        ncases = list(tlc_json_lines(out))
+        os.unlink(out)
+        njobs = [(c, 1 + i % 3, False, True) for i, c in enumerate(ncases) if tier == 'thorough' or i % 2 == seed() % 2]
+        with Pool(12) as pool:
+            nouts = pool.map(p_names.names_job, njobs, chunksize=8)
+        for (c, t, _, _), probs in zip(njobs, nouts):
+            for cat, msg in probs:
+                res.violation(cat, msg + ' (threads %d)' % t, {'names_case': c, 'threads': t})
+        res.cov['parts']['other-inputs'] = {'quilt_states_and_broken_patches': len(sjobs), 'with_failing_patch_before_broken': sum(1 for j in sjobs if j[3]),
+                                            'file_name_cases': len(njobs)}
+        res.cov['traces_validated_against_impl'] += len(sjobs) + len(njobs)
+        res.cov['evaluations'] += len(sjobs) + len(njobs)
         res.cov['parts']['dry-scenarios'].update({'runs': len(jobs), 'traced_with_strace': sum(1 for j in jobs if j[4]),
                                                   'failing_series': sum(1 for j in jobs if j[2]['exit'] == 1)})
         res.cov['traces_validated_against_impl'] += len(jobs)
